@@ -16,17 +16,19 @@ HEADER = ('From VCu Require Import Sched.\nFrom Coq Require Import List NArith.\
 COQ_TARGETS = ['props/C14.vo']
 
 
-def guard_ok(s, i):
-    g = s.get('g', '')
-    k = s.get('k', 0)
-    return {'': True, 'eq': i == k, 'ne': i != k, 'lt': i < k, 'gt': i > k}[g]
+def cmp_guard(g, x, k):
+    return {'': True, 'eq': x == k, 'ne': x != k, 'lt': x < k, 'gt': x > k}[g]
 
 
-def barriers_of(prog, i):
-    """number of barriers wavefront i executes before it ends"""
+def guard_ok(s, i, wg=0):
+    return cmp_guard(s.get('g', ''), i, s.get('k', 0)) and cmp_guard(s.get('gw', ''), wg, s.get('kw', 0))
+
+
+def barriers_of(prog, i, wg=0):
+    """number of barriers wavefront i of work-group wg executes before it ends"""
     n = 0
     for s in prog:
-        if not guard_ok(s, i):
+        if not guard_ok(s, i, wg):
             continue
         if s['op'] == 'barrier':
             n += 1
@@ -40,9 +42,9 @@ def well_formed(case):
     wavefronts that have not ended before it... (generator invariant: barriers
     are never guarded, so a live wavefront executes all of them)"""
     for s in case['prog']:
-        if s['op'] == 'barrier' and s.get('g'):
+        if s['op'] == 'barrier' and (s.get('g') or s.get('gw')):
             return False
-    return all(barriers_of(case['prog'], i)[1] for i in range(case['nwf']))
+    return all(barriers_of(case['prog'], i, g)[1] for i in range(case['nwf']) for g in range(case['nwg']))
 
 
 def ticks(evs):
@@ -239,7 +241,7 @@ def main(argv):
                        'and dispatch-port back-pressure are environment choices (over-approximated); pause/flush and sampling mode not modelled',
                        'sampled programs only decide whether the real scheduler still behaves like the model']
     thorough = vlib.tier() == 'thorough'
-    n = 400 if thorough else 36
+    n = 400 if thorough else 30
 
     replay_file = argv[argv.index('--replay') + 1] if '--replay' in argv else None
 
